@@ -108,10 +108,11 @@ def counter_and_limit(ps):
     for p in ps:
         if p.status == 'return' and is_agg(p.ret, None, 'None'):
             for t, v in p.cons:
-                if t[0] == 'bin' and t[1] in ('Ge', 'Lt', 'Gt', 'Le') and all(
+                if t[0] == 'bin' and t[1] in ('Lt', 'Le') and all(
                         x[0] == 'load' and x[1][0] == SELF and len(x[1][1]) == 1 for x in (t[2], t[3])):
+                    # canonical atoms: `counter >= limit` is Le(limit, counter); `counter < limit` is Lt(counter, limit)
                     a, b = t[2][1], t[3][1]
-                    counter, limit = (a, b) if t[1] in ('Ge', 'Lt') else (b, a)
+                    counter, limit = (a, b) if t[1] == 'Lt' else (b, a)
     return counter, limit
 
 
